@@ -347,6 +347,9 @@ def gen_world(rng, nthreads=None, preempt=False, calm=False):
         if rng.random() < 0.45:
             # conflict-directed: extra preemption chances at locations that two virtual threads have touched
             w['p_shared'] = rng.choice([160, 1600, 8000, 30000])
+        if rng.random() < 0.4:
+            # x86-TSO for atomics: relaxed/release atomic stores may wait in the virtual thread's store buffer
+            w['p_sb'] = rng.choice([20000, 65535])
         if rng.random() < 0.5:
             # bursts: preemptions biased to land shortly after a task body starts
             w['p_burst'] = rng.choice([3000, 12000, 40000]); w['burst_len'] = rng.choice([16, 200, 3000])
